@@ -247,3 +247,57 @@ def checks(tier):
                       "produces the empty blob: lookup in an installed pack and ingestion through add_pack return / accept it",
                outside="other object types with empty results (not valid git objects)", tiers=q),
     ]
+
+
+# ---------------------------------------------------------------------------------------------
+# (e) copy runs around the 64 KiB split, at every small base/target offset
+_b03e = checks
+_RUNS = (0xFFFF, 0x10000, 0x10001, 0x1FFFE, 0x1FFFF)
+_PATTERN = bytes((i * 7 + (i >> 8) * 13 + 3) % 251 for i in range(0x20000))
+
+
+def h_create_apply_long(eng, run=0x10000):
+    """a shared run of `run` bytes (around the 0xFFFF / 0x10000 copy-length split) that starts after 0..2 symbolic bytes of
+    the base and 0..2 symbolic bytes of the target and is followed by one differing symbolic byte: the delta the pure-Python
+    encoder emits for the diff script (prefix edit, equal run, replace) reproduces the target; the run's content is a
+    fixed non-periodic pattern so that a copy from the wrong base offset cannot produce the right bytes"""
+    i1 = eng.choice("base_prefix", 3)
+    j1 = eng.choice("target_prefix", 3)
+    body = _PATTERN[:run]
+    base = _cat3(eng, eng.bytes("bp", i1), body, eng.bytes("bs", 1))
+    target = _cat3(eng, eng.bytes("tp", j1), body, eng.bytes("ts", 1))
+    ops = []
+    if i1 or j1:
+        ops.append(("replace" if i1 and j1 else ("delete" if i1 else "insert"), 0, i1, 0, j1))
+    ops.append(("equal", i1, i1 + run, j1, j1 + run))
+    ops.append(("replace", i1 + run, i1 + run + 1, j1 + run, j1 + run + 1))
+    _StubMatcher.ops = ops
+    saved = P.SequenceMatcher
+    P.SequenceMatcher = _StubMatcher
+    try:
+        delta = b"".join(P._create_delta_py(base, target)) if eng.mode == "concrete" else \
+            SymBytes([]).join(P._create_delta_py(base, target))
+    finally:
+        P.SequenceMatcher = saved
+    out = P.apply_delta(base, delta)
+    res = SymBytes([]).join(out) if eng.mode != "concrete" else b"".join(out)
+    eng.prove(len(delta) < 64, "long runs are encoded as copies, not literals")
+    eng.prove(res == target, "apply(create(base,target),base) == target across the 64 KiB copy split")
+
+
+def _cat3(eng, a, b, c):
+    if eng.mode == "concrete":
+        return bytes(a) + bytes(b) + bytes(c)
+    return SymBytes([]).join([a, b, c])
+
+
+def checks(tier):
+    q = ("quick", "thorough")
+    return _b03e(tier) + [
+        KCheck("C03e.create_apply_long_copy", h_create_apply_long, parts=[{"run": r} for r in _RUNS],
+               encoded=["dulwich.pack._create_delta_py", "dulwich.pack._encode_copy_operation", "dulwich.pack.apply_delta"],
+               bounds="shared runs of 65535, 65536, 65537, 131070 and 131071 bytes (fixed non-periodic content) starting at base "
+                      "offset 0..2 and target offset 0..2 behind symbolic bytes, followed by one symbolic differing byte",
+               outside="other run lengths; runs with symbolic content (lengths are concrete per path, see 8.6)",
+               assumptions=["difflib.SequenceMatcher.get_opcodes replaced by the diff script named in the bound"], tiers=q),
+    ]
